@@ -47,18 +47,20 @@ class C11(Prop):
             'sets over 4 tags / timestamper / StreamToQueue with code "0","1","ab" or the empty code drained into its inner result); 0-3 caller tag objects '
             '(set or frozenset, possibly empty, re-used by several calls); call scripts startTestRun, 0-5 status (all ten fields varied; test ids, route codes '
             'and file names incl. the empty string; 30% with one event sent twice), '
-            'stopTestRun, 15% in unusual order. thorough adds every tree with <= 2 inner nodes on a path and fan-out <= 2 over a fixed '
-            '5-call script. non-trivial = at least one status call and (>= 2 leaves or a field-owning decorator on some path); '
+            'stopTestRun, 15% in unusual order. thorough adds every tree with <= 2 inner nodes on a path and fan-out <= 2 (taggers that add, discard everything, or do nothing) over a fixed '
+            '7-call script (tags None, non-empty, empty). non-trivial = at least one status call and (>= 2 leaves or a field-owning decorator on some path); '
             'distinct = distinct input S-expression')
     assumptions = ['translator tie (harness/pystream.py): TimestampingStreamResult.status and StreamToQueue.route_code are symbolically executed; the queue dict, the status signatures, CopyStreamResult and StreamFailFast.status are matched on every run; trusted: the translator and the reading of the recognised forms by TTV/Model/DecoSrc.lean (_strict_map(methodcaller(...)) = call every target in order = the plain for loop); trusted normalisations before comparing: `timestamp or now` = `now if timestamp is None` (a datetime is never false), the timestamp written back into kwargs instead of popped and passed by keyword, a + "/" + b = "/".join((a, b)) = f"{a}/{b}" for str, dict(...) = dict literal with the key order immaterial, the adjusted route code / the dict bound to a local first, `in (…)` = `==`/`or` chain = early return on `not in` for StreamFailFast - the order of super() and the targets is asserted as written',
                    'datetime.now(utc) is an oracle value: canonicalised to `now` after checking it is tz-aware UTC and inside the run window',
                    'Python set/frozenset object identity and mutation are modelled by a heap of tag lists; the queue handed to StreamToQueue dispatches each event to the inner result synchronously',
-                   'status() is called with the first k parameters positional (k varies with the input) and the rest by keyword, except that the field a `*args, **kwargs` decorator owns is always passed by keyword (StreamTagger: test_tags, TimestampingStreamResult: timestamp - passing those positionally through them raises TypeError in the unchanged code: outside the generated domain)']
+                   'status() is called with the first k parameters positional (k varies with the input) and the rest by keyword, except that the field a `*args, **kwargs` decorator owns is always passed by keyword (StreamTagger: test_tags, TimestampingStreamResult: timestamp - passing those positionally through them raises TypeError in the unchanged code: outside the generated domain; audit/C11 v1 reads the property over every calling convention: recorded as an interpretation, not repaired)',
+                   'INTERPRETATION pinned by the suite (audit/C11 v2 read the prose the other way): StreamTagger.status forwards `test_tags or None`, so an EMPTY resulting tag set - an empty set supplied to a tagger with nothing to do, or every supplied tag discarded - reaches the targets as None; TestStreamTagger.test_discarding asserts exactly that, so it is intended behaviour and not repaired. Downstream None means "no tag information": a consumer behind a tagger (_update_case: `if test_tags is not None`) keeps the PREVIOUS tags of the test where it would have recorded the empty set; the model keeps None and the empty set apart everywhere else',
+                   'INTERPRETATIONS (audit/C11 borderline list, modelled from the code): the set a StreamTagger builds is ONE object handed to all its targets, CopyStreamResult / StreamToQueue hand the caller\'s own object on - observable only by a target that writes to what it receives (the recording sinks do not; clause no-late-write checks that nobody else does); a raising target ends the fan-out; `targets` is kept by reference']
 
     manifest = {
         'text': 'Theorems for every decorator tree (any depth and fan-out of CopyStreamResult / StreamTagger / TimestampingStreamResult / StreamToQueue over '
                 'sinks and StreamFailFast leaves), every heap of caller tag-set objects and every call sequence: each sink receives each startTestRun / stopTestRun / '
-                'status exactly once, in order, and the status it receives is the composition along its own path of: tags (t | add) - discard (None when empty), timestamp '
+                'status exactly once, in order, and the status it receives is the composition along its own path of: tags (t | add) - discard (None when that is empty - pinned by the suite, see assumptions), timestamp '
                 'filled iff missing, route code prefixed - every other field unchanged, independent of siblings; StreamFailFast fires exactly for fail and uxsuccess; '
                 'no object of the caller is written (the heap only grows) and what a sink holds at the end is what it received. The hand-written model is tied to the '
                 'code by a differential check with receipt-time and end-of-run snapshots and object identities.',
@@ -191,15 +193,17 @@ class C11(Prop):
             yield ['copy', a]
             yield ['tagger', [1], [0], a]
             yield ['tagger', [], [0, 1], a]
+            yield ['tagger', [], [], a]                 # nothing to do: the identity - except that an empty tag set goes on as None
         for a in subs:
             for b in subs:
                 yield ['copy', a, b]
                 yield ['tagger', [2], [], a, b]
 
     def enumerate(self, tier):
-        objs = [[False, [0]], [True, [0, 1]]]
+        objs = [[False, [0]], [True, [0, 1]], [True, []]]
         calls = ['start', ['status', ev(0, 'inprogress', 0, ts=1)], ['status', ev(0, 'fail', 1, route='r')],
-                 ['status', ev(1, 'success', None, fname=2, fbytes=[65])], ['status', ev(0, 'uxsuccess', 0)], 'stop']
+                 ['status', ev(1, 'success', None, fname=2, fbytes=[65])], ['status', ev(0, 'uxsuccess', 0)],
+                 ['status', ev(1, 'success', 2)], 'stop']           # the last one carries an empty frozenset: not None
         for t in self.small_trees(2):
             yield [t, objs, calls]
 
